@@ -108,6 +108,9 @@ class World:
             return PRIM_CLS[t[1]]
         if k == "enum":
             return self.enums[t[1]]
+        if k == "time":
+            import datetime as _dt
+            return _dt.datetime if t[1] == "datetime" else _dt.date
         if k == "lit":
             return Literal[tuple(t[1])]
         if k == "list":
@@ -150,6 +153,8 @@ class World:
             return "TAny"
         if k == "prim":
             return f"(TPrim {PRIM_COQ[t[1]]})"
+        if k == "time":
+            raise Unencodable("datetime / date leaves are not in the nested model")
         if k == "enum":
             return f"(TEnum {t[1]}%N)"
         if k == "lit":
@@ -289,6 +294,8 @@ def gen_type(w: World, depth: int, cid_limit: int, hashable=False, self_cid=None
         if cands and p.get("class_keys", True):
             return ("class", rng.choice(cands))
         return ("prim", "int")
+    if leaf and p.get("datetimes") and rng.random() < 0.12:
+        return ("time", rng.choice(["datetime", "date"]))
     if leaf:
         r = rng.random()
         if r < 0.5:
@@ -472,6 +479,11 @@ def gen_value(w: World, t, depth: int):
         return rng.choice([(1, "a"), (), {1, 2}, frozenset(["a"])]) if w.profile.get("any_tuples", True) else 5
     if k == "prim":
         return gen_atom(w, t[1])
+    if k == "time":
+        import datetime as _dt
+        if t[1] == "datetime":
+            return _dt.datetime(2020 + rng.randrange(5), rng.randrange(1, 13), rng.randrange(1, 28), rng.randrange(24), rng.randrange(60), rng.randrange(60))
+        return _dt.date(2020 + rng.randrange(5), rng.randrange(1, 13), rng.randrange(1, 28))
     if k == "enum":
         return rng.choice(list(w.enums[t[1]]))
     if k == "lit":
